@@ -296,6 +296,14 @@ def native_cases(ctx, gens, nrand_q, nrand_t, steps_basis=3, steps_rand=24):
 
 def tie_C01(ctx):
     cases = native_cases(ctx, XOSHIRO_FAMILY, 60, 1500)
+    # stream positions reached through a large fill_bytes (bulk paths must advance by exactly the words they hand out)
+    for g in XOSHIRO_FAMILY:
+        nat = native(g)
+        for n in ([4104, 10000] if not ctx.thorough else [4096, 4104, 8200, 10000, 65544]):
+            seed = rand_bytes(ctx.rng, GENS[g]["seed"])
+            if any(seed):
+                cases.append([f"new 0 {g} seed {seed.hex()}", f"fill 0 {n}", "ser 0", f"{nat} 0", f"{nat} 0", "ser 0"])
+                ctx.dist[f"{g}:position-after-large-fill"] += 1
     ctx.absolute("native-step(xoshiro family): from_seed, native outputs and state image after every step", cases)
 
 def tie_C04(ctx):
@@ -332,9 +340,9 @@ def tie_C02(ctx):
         ctx.dist["hc128:deep>65536 words"] += 1
     ctx.absolute("keystream(Hc128Rng) vs model", cases)
     core_level(ctx, ["Hc128Rng"])
-    if ctx.thorough:
+    if True:
         # the keystream is defined beyond 2^32 words: the generator must still deliver it (values there are not compared: the
-        # model would need hours to get there; C14 runs the same history in the quick tier for panic-freedom)
+        # model would need hours to get there; C14 runs the same history for panic-freedom)
         long_ = [["new 0 Hc128Rng seed " + "05" * 32, f"burn 0 {(1 << 34) + 8192}", "u32 0"]]
         o = ctx.real("Hc128Rng beyond 2^32 keystream words", long_)[0]
         if "panic" in o:
